@@ -59,13 +59,25 @@ def finalNs (types : List TypeInfo) (classNs : Option Str) (a : AttrM) : Option 
     | none => resolveNamespace .absent a.ns none classNs
   else some a.ns
 
+/-- id of the inner class `name` of class `cid` -/
+def childId (cid name : Str) : Str := cid ++ ws!"/" ++ name
+
 /-- target of an attr: inner class, payload class or primitive -/
 def attrTarget (types : List TypeInfo) (ownerId : Str) (a : AttrM) : Option (Xs.Bind.TypeRef × Option Str) :=
-  if a.forward then some (.cls (ownerId ++ ws!"/" ++ a.name), some (ownerId ++ ws!"/" ++ a.name))
+  if a.forward then some (.cls (childId ownerId a.name), some (childId ownerId a.name))
   else if a.native then (nativeType a.type).map (fun t => (.prim t, none))
   else match findType types a.type with
     | some ⟨_, .complex, _, some cid⟩ => some (.cls cid, some cid)
     | _ => none
+
+/-- `XmlVar.namespaces` of an element: the field namespace `fns` is rendered unless it equals
+the render-time namespace of the class (`Filters.field_metadata`); an element without rendered
+namespace inherits the run-time class namespace (`XmlVarBuilder.resolve_namespaces`); an empty
+namespace gives no entry (unqualified) -/
+def varNamespaces (fns renderNs ownerNs : Option Str) : List Str :=
+  let rendered : Option Str := if fns == renderNs then none else fns
+  let eff : Option Str := match rendered with | some n => some n | none => ownerNs
+  match eff with | some (c :: cs) => [c :: cs] | _ => []
 
 /-- `XmlVar` of one attr of a class whose run-time namespace is `ownerNs`; `renderNs` is the
 namespace the class has when it is rendered (its own or the enclosing classes'):
@@ -73,11 +85,8 @@ namespace the class has when it is rendered (its own or the enclosing classes'):
 def attrVar (types : List TypeInfo) (ownerId : Str) (ownerNs renderNs classNs : Option Str) (index : Nat) (a : AttrM) :
     Option Xs.Bind.XmlVar := do
   let fns0 ← finalNs types classNs a
-  let fns : Option Str := if fns0 == renderNs then none else fns0
   let (tref, clazz) ← attrTarget types ownerId a
-  -- XmlVarBuilder.resolve_namespaces: an element without namespace inherits the class namespace
-  let eff : Option Str := match fns with | some n => some n | none => ownerNs
-  let namespaces : List Str := match eff with | some (c :: cs) => [c :: cs] | _ => []
+  let namespaces := varNamespaces fns0 renderNs ownerNs
   let ns1 : Option Str := namespaces.head?
   pure { index := index, name := a.name, localName := a.name, qname := bindQName ns1 a.name,
          wrapperQName := none, types := [tref], clazz := clazz, init := true, mixed := false,
@@ -132,7 +141,7 @@ def familyInfos (types : List TypeInfo) (pnss : List (Option Str)) : Nat → Cls
   | n + 1, c, cid, isGlobal, rns => do
     let ci ← classInfo types pnss c cid isGlobal rns
     let rns' : Option Str := match c.ns with | some x => some x | none => rns
-    let inner ← c.inner.mapM (fun i => familyInfos types pnss n i (cid ++ ws!"/" ++ i.name) false rns')
+    let inner ← c.inner.mapM (fun i => familyInfos types pnss n i (childId cid i.name) false rns')
     pure (ci :: inner.flatten)
 
 /-- the envelope family as binding classes -/
@@ -144,5 +153,23 @@ def envelopeCtx (types : List TypeInfo) (pnss : List (Option Str)) (env : Cls)
     (payload : List Xs.Bind.ClassInfo) (datatypes : List (Xs.Bind.QN × Option Xs.Bind.PT)) : Option Xs.Bind.Ctx := do
   let fam ← envelopeClasses types pnss env
   pure { classes := fam ++ payload, xsiIndex := [], datatypes := datatypes }
+
+/-! ## reading a written document -/
+
+/-- element name of a document node -/
+def docName : Xs.Bind.Tree → Xs.Bind.QN | .node q _ _ _ _ _ => q
+/-- child elements of a document node -/
+def docKids : Xs.Bind.Tree → List Xs.Bind.Tree | .node _ _ _ _ c _ => c
+
+/-- the child elements a field value is written as: none for `None`, one per list item, else one -/
+def childItems : Xs.Bind.Val → List Xs.Bind.Val
+  | .none => []
+  | .list xs => xs
+  | y => [y]
+
+/-- the qnames of the element children an object with these fields must be written with:
+per element var, in metadata order, one per item of the field value -/
+def presentQNames (m : Xs.Bind.XmlMeta) (fields : List (Str × Xs.Bind.Val)) : List Xs.Bind.QN :=
+  m.elementVars.flatMap fun var => (childItems (Xs.Bind.F1.look fields var.name)).map fun _ => var.qname
 
 end Xs.Wsdl
